@@ -2,6 +2,7 @@ package bondmachine
 
 import (
 	"os"
+	"sort"
 	"strings"
 	"text/template"
 )
@@ -55,7 +56,16 @@ func (sl *BMAPIExtra) Get_Params() *ExtraParams {
 	result.Params["inputs"] = ""
 	result.Params["outputs"] = ""
 
-	for bmport, apiport := range sl.Maps.Assoc {
+	// The port lists are consumed positionally (the uartusb transceiver is instantiated by position
+	// against a module whose ports are declared in sorted order): never in map order
+	bmports := make([]string, 0, len(sl.Maps.Assoc))
+	for bmport := range sl.Maps.Assoc {
+		bmports = append(bmports, bmport)
+	}
+	sort.Strings(bmports)
+
+	for _, bmport := range bmports {
+		apiport := sl.Maps.Assoc[bmport]
 		result.Params["assoc_"+bmport] = apiport
 		if strings.HasPrefix(bmport, "i") {
 			if result.Params["inputs"] != "" {
